@@ -108,6 +108,14 @@ def build(case):
             elif ev[0] == 'S':
                 d.s += '\\selectlanguage{%s}' % ev[1:]
                 cur[-1] = LT[ev[1:]]
+            elif ev[0] == 'N':
+                # a foreign insertion with a footnote in it (the footnote starts with a hard switch to the language in force)
+                lang, n = ev[1:].split(':')
+                d.s += '\\foreignlanguage{%s}{Wi \\footnote{Wn ' % lang
+                body = MENU[k % len(MENU)]
+                k += 1
+                d.formula(body, menu_model(body), k % 2, LT[lang])
+                d.s += ' Wo} Wj}'
             elif ev[0] in 'IH':
                 # foreign insertion holding one or two formulas (H: inside a heading, whose argument is expanded twice)
                 lang, n = ev[1:].split(':')
@@ -128,7 +136,7 @@ def build(case):
     raise ValueError(kind)
 
 
-ML_EVENTS = ['F', 'Sgerman', 'Senglish', 'Srussian', 'Sfrench', 'Igerman:1', 'Irussian:2', 'Ienglish:1', 'Hrussian:1', 'Hgerman:2']
+ML_EVENTS = ['F', 'Sgerman', 'Senglish', 'Srussian', 'Sfrench', 'Igerman:1', 'Irussian:2', 'Ienglish:1', 'Hrussian:1', 'Hgerman:2', 'Nrussian:1']
 
 
 class C10:
@@ -170,7 +178,7 @@ class C10:
         emax = 4 if tier == 'quick' else 5
         for n in range(1, emax + 1):
             for evs in itertools.product(ML_EVENTS, repeat=n):
-                if sum(e == 'F' or e[0] in 'IH' for e in evs) < 2:
+                if sum(e == 'F' or e[0] in 'IHN' for e in evs) < 2:
                     continue
                 for main in ('en-GB', 'de-DE'):
                     yield ['ml', list(evs), main]
